@@ -232,6 +232,10 @@ class EscapePolicy(InlineOnly):
                 return []
             o.note_site("struct.error", ev)
             return ["struct.error"]
+        if ev.attrname == "iter_unpack" or (ev.ext or "").endswith("iter_unpack"):
+            # struct.error unless the buffer is a whole number of records; no length fact in reach proves that
+            o.note_site("struct.error", ev)
+            return ["struct.error"]
         if ev.ext:
             if ev.ext.startswith("enumconv:"):
                 return ["ValueError"]
@@ -315,8 +319,8 @@ class Escapes:
                 for c in (ci.mro if ci else []):
                     for fi0, val in self.prog.classes[c].attr_init.get(b[2], []):
                         import ast as _ast
-                        if isinstance(val, _ast.Call) and _ast.unparse(val.func).endswith("defaultdict"):
-                            return "defaultdict"
+                        if isinstance(val, _ast.Call) and _ast.unparse(val.func).split(".")[-1] in ("defaultdict", "Counter"):
+                            return "defaultdict"  # a missing key yields a default, not KeyError
         if b[0] == "item" and self.container_kind(b[1], eng) == "defaultdict":
             return "dict"
         if b[0] == "call" and layout.unpack_call(eng, b) is not None:
